@@ -29,6 +29,26 @@ CLAIMED = {
     note="Same premises/trusted base as C01. Level()/Output()/Sample() are executed on the real code as byte-neutral derivations (the model ignores them, so any effect on bytes is a mismatch). A hook that discards does not stop later hooks (as in the code); they are still required to run once.",
     technique="Coq proof (logger invariant by induction over the derivation chain) + byte and mark-trace correspondence",
     design="5 C03"),
+ "C14": dict(
+    text="Theorems in Coq over an executable model of multiLevelWriter / FilteredLevelWriter / LevelWriterAdapter / SyncWriter and Event.msg's error routing, for ALL destination lists, wrapper chains, event sequences and outcome oracles {ok, error, short write}: every destination's call log is exactly the event sequence (filtered by its level), same bytes and level, independent of every other destination's outcome; the first failing destination's error is returned (short write = ErrShortWrite); ErrorHandler (or stderr) runs exactly once per failing event, the event is recycled and done still runs; call k depends only on event k. Tie: real Logger over real writers with scripted fakes, exhaustive 3^(D*E) outcome matrices for D<=3,E<=2 plus random, traces compared with the model; independent Go monitors.",
+    note="Trusted: Coq kernel + vm_compute; the model of writer.go/event.go (trace-compared with the implementation on ~5.7k cases per run); Go harness. Entering a MultiLevelWriter through plain Write (hidden behind an io.Writer) bypasses level filters: outside the property, stated as C14_filter_needs_level_entry.",
+    technique="Coq proof (induction over destinations/events) + trace correspondence on exhaustive outcome matrices",
+    design="5 C14"),
+ "C15": dict(
+    text="Theorems in Coq over an executable model of TriggerLevelWriter exactly as implemented (level-byte framing, re-split on newline, int8/uint8 reinterpretation, the three WriteLevel branches, Trigger, Close): refinement of a declarative hold/release specification for ALL histories with newline-terminated lines without interior newline and levels <> 10, all threshold pairs; frame-split round trip; the two exclusions shown necessary by counterexample lemmas; int8(uint8 l)=l for all 256 levels; no loss/duplication (Permutation); C15_concurrent: in the lock-level LTS every schedule equals the sequential run in lock-acquisition order. Tie: 360k bounded-exhaustive + random histories through the real writer (a sample evaluated in Coq, all monitored by a Go re-implementation of the spec), concurrent runs under the race detector with a reconstructed sequential explanation.",
+    note="Trusted: Coq kernel + vm_compute; the model of writer.go; sync.Mutex gives mutual exclusion and Unlock happens-before the next Lock (assumed by C15_concurrent; every method being Lock/body/deferred Unlock was read off writer.go); Go harness and race detector. Close discards held lines and does not reset the trigger latch (reading fixed in DESIGN section 8).",
+    technique="Coq proof (refinement + lock-level LTS) + history correspondence, bounded-exhaustive and concurrent",
+    design="5 C15"),
+ "C18": dict(
+    text="Theorems in Coq: C18_status_bytes - for ALL sequences of WriteHeader/Write/ReadFrom (Flush interspersed), all underlying-writer answers and every capability set selected by WrapWriter, the proxy reports the first WriteHeader code (200 if a body write came first, 0 if nothing) and the sum of the accepted byte counts; C18_request_isolation - over a slice/backing-array heap model with quantified growth policy, for all request sets, handler subsets/orders and ALL schedules, each request's context is base ++ its own fields, write footprints are disjoint and fresh; C18_base_unchanged. Tie: 58k exhaustive call sequences (<=5 calls, 3 capability sets) + random through the real hlog.AccessHandler, real httptest server comparison, concurrent request batches under the race detector.",
+    note="Trusted: Coq kernel + vm_compute; models of writer_proxy.go and of With()/UpdateContext slice semantics; net/http behaviour; Go harness. Flush before the header (outside the property's call alphabet) makes net/http send 200 while the proxy records nothing - noted in DESIGN, not claimed. Premise of C18_status_bytes: total < 2^63 (C18_status_bytes_wrap has none).",
+    technique="Coq proof (state machine for all call sequences; heap invariant for all schedules) + exhaustive call-sequence correspondence",
+    design="5 C18"),
+ "C19": dict(
+    text="Theorems in Coq over a logical call-stack model whose frame chains and skip constants are REGENERATED from the source on every run (c19gen: go/types walk of every static path from an exported Event/Logger/log function to runtime.Caller): C19_reports_user_frame - for every entry point, finalizer, hook arrangement, wrapper depth d and k<=d, each of the six ways of asking (CallerSkipFrame(k), Caller(k), global count, Context.Caller, CallerWithSkipFrameCount(2+k), ...) names user frame k; skips from all sources add up; finite table obligations by vm_compute. Tie: a generated Go program logs from 487 known source lines (depth 0..4) built against the repository with default optimisation; reported file:line must equal runtime.Caller(0) captured on the same line.",
+    note="Partial: the Go runtime's frame accounting (inlining, hidden wrapper frames for value-receiver methods behind interfaces) is trusted, not modelled - observed only through the generated program. Trusted: Coq kernel + vm_compute; c19gen's shape grammar (unrecognised shapes abort, never guessed); Go harness. CallerWithSkipFrameCount(-1) (doc says 'use global', code tests MinInt32) is outside the quantifier; noted in DESIGN.",
+    technique="Coq proof over a call-chain table regenerated from the source + generated line-number program",
+    design="5 C19"),
 }
 
 NOT_YET = {}
